@@ -27,7 +27,8 @@ SPELLINGS = {
     "<=": "__le__", "leq": "__le__", "&lt;=": "__le__", ">=": "__ge__", "geq": "__ge__", "&gt;=": "__ge__",
 }
 KINDS = {
-    "Int": ([0, 1, -1, 5], ["0", "1", "-1", "5", "3"], int),
+    # integers beyond 2**53 are compared exactly (no detour through a double)
+    "Int": ([0, 1, -1, 5, 2 ** 53 + 1, 2 ** 64 - 1], ["0", "1", "-1", "5", "3", "9007199254740993", "9007199254740992", "18446744073709551615"], int),
     "Float": ([0.0, 2.5, -1.5, 3.0, 0.30000000000000004, 4000000001.0], ["0", "2.5", "-1.5", "3", "0.3", "4000000000"], float),
     # labels that look like booleans / numbers and blank-padded fixed-width literals are ordinary strings
     "Str": (["", "a", "b", "TRUE", "false", "1", "ON  ", " ON"], ["", "a", "b", "TRUE", "False", "1", "0", "ON  ", "ON", " ON"], str),
@@ -545,6 +546,8 @@ def mutants(prog):
         if n:
             out.append((name, CMP, new, expect))
 
+    sub("xs:boolean 1 read as false (Comparison selector)", r"use_calibrated_value = element\.attrib\['useCalibratedValue'\]\.lower\(\) in \('true', '1'\)",
+        "use_calibrated_value = element.attrib['useCalibratedValue'].lower() == 'true'", "R6.xml")
     sub("leq -> __lt__", r'"leq": "__le__"', '"leq": "__lt__"', "R6.1")
     sub("&gt;= -> __gt__", r'"&gt;=": "__ge__"', '"&gt;=": "__gt__"', "R6.1")
     sub("!= -> __eq__", r'"!=": "__ne__"', '"!=": "__eq__"', "R6.1")
